@@ -528,3 +528,26 @@ Section Denote.
   Definition tdenote (t : tens) : option (list T) :=
     match t with T1 v => Some (map denote v) | T2 m => Some (map denote (concat m)) | TErr => None end.
 End Denote.
+
+(* ------------------------------------------------------------------ deepening: IPPO's action-mask plumbing (extract_action_masks) *)
+(* An agent id "group_member" is (group, member); get_homo_id = fst.  agent_ids is the constructor's list; infos is the
+   caller's dictionary as an association list in the CALLER's key order. *)
+Definition agent := (nat * nat)%type.
+Definition agent_eqb (a b : agent) : bool := Nat.eqb (fst a) (fst b) && Nat.eqb (snd a) (snd b).
+
+Fixpoint lookup_agent {V} (k : agent) (l : list (agent * V)) : option V :=
+  match l with
+  | [] => None
+  | (k', v) :: r => if agent_eqb k k' then Some v else lookup_agent k r
+  end.
+
+(* observations of the policy group g are stacked in agent_ids order (preprocess_observation) *)
+Definition group_members (ids : list agent) (g : nat) : list agent := filter (fun a => Nat.eqb (fst a) g) ids.
+
+(* current code (after 0c075e0): for agent_id in self.agent_ids: action_masks[homo_id].append(infos.get(agent_id)...) *)
+Definition ippo_masks {V} (ids : list agent) (infos : list (agent * V)) (g : nat) : list (option V) :=
+  map (fun a => lookup_agent a infos) (group_members ids g).
+
+(* code before 0c075e0: for agent_id, info in infos.items(): action_masks[homo_id].append(...) — the caller's key order *)
+Definition ippo_masks_pinned {V} (infos : list (agent * V)) (g : nat) : list (option V) :=
+  map (fun p => Some (snd p)) (filter (fun p => Nat.eqb (fst (fst p)) g) infos).
